@@ -203,6 +203,21 @@ fn run_and_judge(r: &mut Report, id: &str, sc: &Scenario, idx: usize, schema: &A
         c["call_under_test"] = json!(idx);
         c
     };
+    if r.wants_sample() && !sc.plan.faults.is_empty() {
+        let per_conn: Vec<String> = {
+            let mut m: BTreeMap<usize, Vec<String>> = BTreeMap::new();
+            for e in tr.log.iter().filter(|e| e.call == idx) {
+                let what = match &e.dir {
+                    Dir::Rx => format!("rx {}", refcodec::hex(&e.bytes[..e.bytes.len().min(3)])),
+                    Dir::Tx => format!("tx {}", refcodec::hex(&e.bytes[..e.bytes.len().min(3)])),
+                    other => format!("{other:?}"),
+                };
+                m.entry(e.conn).or_default().push(format!("{}ms {what}", e.t_ms));
+            }
+            m.into_iter().map(|(k, v)| format!("conn {k}: {}", v.join(", "))).collect()
+        };
+        r.sample(json!({"scenario": label, "results": tr.calls.iter().map(|c| format!("call {} {} -> {} after {} virtual ms", c.index, c.call.as_ref().map(|x| x.name()).unwrap_or("new"), c.result.short(), c.virtual_ms)).collect::<Vec<_>>(), "connection_log_of_the_call_under_test": per_conn}));
+    }
     if id == "C09" {
         if let Some((rule, what)) = check_connections(sc, &tr) {
             r.violation(&format!("C09 {rule}"), &format!("{label}: {what}"), case());
